@@ -89,7 +89,14 @@ def build_hosted(states, slots, grain=8, ngte=512, capacity=None, window_at=0, t
     if descriptor is not None:
         raw = descriptor.encode()
         desc_off, desc_size = 1, max(20, (len(raw) + S - 1) // S)
-        img.put(S, raw.ljust(desc_size * S, b"\0"))
+        area = raw.ljust(desc_size * S, b"\0")
+        # the descriptor is the text up to its NUL terminator; behind it the area may still hold the tail of an earlier, longer
+        # descriptor that was overwritten in place (whenever there is room)
+        stale = b'\nparentCID=ffffffff\nparentFileNameHint="gone-away.vmdk"\nRW 7 SPARSE "stale-s001.vmdk"\nddb.adapterType = "ide"\n'
+        if len(raw) + 64 + len(stale) < len(area):
+            at = len(area) - len(stale) - 7
+            area = area[:at] + stale + area[at + len(stale):]
+        img.put(S, area)
         pos = 1 + desc_size
     if stride is None:
         stride = grain
